@@ -19,6 +19,9 @@ EXTENDS KeyFormats, Json, IOUtils, TLC
 
 Recs == ndJsonDeserialize(IOEnv.IN_FILE)
 
+RECURSIVE SetSeq(_)
+SetSeq(S) == IF S = {} THEN <<>> ELSE LET x == CHOOSE y \in S : TRUE IN <<x>> \o SetSeq(S \ {x})
+
 \* "undef": the key (after its history) has no such representation (e.g. segwit extended key moved to dogecoin)
 GenOne(k, fmt) ==
     IF ~CanExport(k, fmt) THEN [fmt |-> fmt, t |-> "undef", v |-> <<>>, w |-> <<>>, dv |-> <<>>]
@@ -35,6 +38,8 @@ Res(r, o) ==
 ExportVerdict(r) ==
     LET k == r.key IN
     IF ~r.code.ok THEN <<"export-failed", "">>
+    ELSE IF r.fmt = "addr_u" THEN
+         (IF r.code.t = "str" /\ AddrUEnvelope(r.code.v, k, r.h160u) THEN <<"ok", "">> ELSE <<"export-address-uncompressed", "">>)
     ELSE IF r.fmt = "bip38" THEN
          (IF r.code.t = "str" /\ Bip38Envelope(r.code.v, k.compressed) THEN <<"ok", "">> ELSE <<"export-bip38-envelope", "">>)
     ELSE IF r.code.t = r.spec.t /\ r.code.v = r.spec.v /\ r.code.w = r.spec.w THEN <<"ok", "">>
@@ -54,8 +59,16 @@ ImportFails(r) ==
 Answer(r) ==
   CASE r.k = "gen" ->
          \* r.hist: calls made on the object before the export; the representations are those of After(key, hist)
-         LET a == After(r.key, r.hist) IN
-         [v |-> "ok", dev |-> "", after |-> a, exp |-> [i \in 1..Len(r.fmts) |-> GenOne(a, r.fmts[i])]]
+         \* r.route: how the object is made from the key (Routed); rin: the representation a route imports
+         LET a == After(Routed(r.key, r.route), r.hist)
+             xc == IF a.priv /\ a.secret[1] = 0 /\ (\E i \in 1..Len(r.fmts) : r.fmts[i] = "xprv") /\ CanExport(a, "xprv")
+                   THEN {ConfigName(<<Family(a.network), a.wt, a.ms>>)} ELSE {}
+         IN
+         [v |-> "ok", dev |-> "", after |-> a, exp |-> [i \in 1..Len(r.fmts) |-> GenOne(a, r.fmts[i])],
+          rin |-> IF r.route.r = "import" THEN GenOne(r.key, r.route.fmt) ELSE GenOne(r.key, "none"),
+          classes |-> SetSeq(ValueClasses(a)), xcover |-> SetSeq(xc)]
+    [] r.k = "cover" ->      \* r.pairs: <<route, class>> pairs the run exercises; answer: what is still missing
+         [v |-> "ok", dev |-> "", exp |-> SetSeq(RequiredCover \ {<<r.pairs[i][1], r.pairs[i][2]>> : i \in 1..Len(r.pairs)})]
     [] r.k = "str" ->
          [v |-> "ok", dev |-> "", exp |-> [i \in 1..Len(r.items) |-> B58String(r.items[i][1], r.items[i][2])]]
     [] r.k = "judge" ->
